@@ -36,6 +36,7 @@ class Proj:
         self.fin_done = {}          # index -> position of the cb.leave that ends its finish callback
         self.desc_ids = {}          # index -> d<k>
         self.stack_ids = {}         # index -> s<k>
+        self.stack_cls = {}         # index -> requested stack size (0 = default class)
         self.led = []               # (position, kind, index, id)
         self.calls = []             # dicts: {actor, op, target, pos, ret, val, ret_pos, checks: [snap dicts]}
 
@@ -63,13 +64,26 @@ def project(case, events, cfg="now"):
         return None
 
     for pos, e in enumerate(events):
+        try:
+            _project_event(P, pos, e, cur, nxt, stack, pending_exit, retval, last_alloc, params, cfg, idx_of)
+        except (IndexError, ValueError, KeyError):
+            P.problems.append("malformed trace line (the run was cut short?): " + e.raw)
+    P.nthreads = nxt[0]
+    lines[0] = "begin %d %s %s" % (P.nthreads, P.default_ss or "131072", "now" if cfg == "oldinit" else cfg)
+    lines.append("end"); src.append(None)
+    return P
+
+
+def _project_event(P, pos, e, cur, nxt, stack, pending_exit, retval, last_alloc, params, cfg, idx_of):
+    lines, src = P.lines, P.src
+    if True:
         a = cur.get(e.actor) if e.actor is not None else None
         if e.kind == "C":
             op = e.words
             rec = None
             if a is None:
                 P.problems.append("call by an unknown thread: " + e.raw)
-                continue
+                return
             if op[0] == "create":
                 T = int(op[1])
                 c = nxt[0]; nxt[0] += 1
@@ -98,7 +112,7 @@ def project(case, events, cfg="now"):
                 t = cur.get(int(op[1]))
                 if t is None:
                     P.problems.append("reaping call on a thread that was never created: " + e.raw)
-                    continue
+                    return
                 lines.append("call %d %s %d" % (a, op[0], t)); src.append(e)
                 rec = {"actor": a, "op": op[0], "target": t, "pos": pos, "checks": []}
                 P.calls.append(rec)
@@ -109,7 +123,7 @@ def project(case, events, cfg="now"):
             stack.setdefault(a, []).append(rec)
         elif e.kind == "R":
             if a is None:
-                continue
+                return
             st = stack.get(a) or []
             rec = st.pop() if st else None
             if rec is not None:
@@ -129,6 +143,7 @@ def project(case, events, cfg="now"):
                 c = last_alloc.get(e.w)
                 if c is not None:
                     P.stack_ids[c] = e.words[1]
+                    P.stack_cls[c] = e.words[2]
                     P.led.append((pos, "alloc.stack", c, e.words[1]))
                     if "attr" in P.flags.get(c, []) and not any(x.startswith("ss=") for x in P.flags[c]) and P.default_ss is None:
                         P.default_ss = e.words[2]
@@ -160,7 +175,7 @@ def project(case, events, cfg="now"):
                 c = idx_of(e.words[1])
                 if c is None:
                     P.problems.append("finish.enter of an unknown thread: " + e.raw)
-                    continue
+                    return
                 P.fin_enter[c] = pos
                 if c in pending_exit:
                     v = pending_exit[c]
@@ -173,11 +188,11 @@ def project(case, events, cfg="now"):
         elif e.kind == "P":
             pid = e.words[0]
             if not pid.startswith(THREAD_POINTS):
-                continue
+                return
             t = idx_of(e.words[1])
             if a is None or t is None:
                 P.problems.append("POINT with an unresolvable thread: " + e.raw)
-                continue
+                return
             v = e.words[2]
             vi = idx_of(v) if v[0] == "t" else None
             sn = _snap(e.snap)
@@ -193,14 +208,30 @@ def project(case, events, cfg="now"):
                 recs = [r for r in st if r is not None]
                 if recs:
                     recs[-1]["checks"].append({"point": pid, "snap": sn, "pos": pos, "target": t})
-    P.nthreads = nxt[0]
-    lines[0] = "begin %d %s %s" % (P.nthreads, P.default_ss or "131072", "now" if cfg == "oldinit" else cfg)
-    lines.append("end"); src.append(None)
-    return P
 
 
 def validate(drv, projs):
     return trace.validate_blocks(drv, [(p.lines, p.src) for p in projs])
+
+
+def safe_run_case(exe, case_text, workdir, name, timeout=60):
+    """trace.run_case, but a trace cut short by a crash of the library (last line incomplete) still parses"""
+    try:
+        return trace.run_case(exe, case_text, workdir, name, timeout=timeout)
+    except (IndexError, ValueError):
+        tp = os.path.join(workdir, name + ".trace")
+        txt = open(tp, errors="replace").read() if os.path.exists(tp) else ""
+        good = []
+        for line in txt.split("\n"):
+            try:
+                trace.parse_trace(line + "\n")
+                good.append(line)
+            except (IndexError, ValueError):
+                pass
+        evs, verdict = trace.parse_trace("\n".join(good) + "\n")
+        rc, out = vlib.sh([exe, os.path.join(workdir, name + ".case"), tp + ".again"], timeout=timeout, cwd=workdir)
+        return {"rc": rc, "out": out, "events": evs, "verdict": verdict, "trace_path": tp,
+                "case_path": os.path.join(workdir, name + ".case"), "trace_text": txt}
 
 
 def run_cases(ctx, exe, drv, cases, timeout=60, cfg="now", subdir="runs"):
@@ -209,7 +240,7 @@ def run_cases(ctx, exe, drv, cases, timeout=60, cfg="now", subdir="runs"):
     wd = os.path.join(ctx.dir, subdir)
     projs = []
     for i, c in enumerate(cases):
-        r = trace.run_case(exe, c, wd, "c%04d" % i, timeout=timeout)
+        r = safe_run_case(exe, c, wd, "c%04d" % i, timeout=timeout)
         p = project(c, r["events"], cfg)
         projs.append(p)
         out.append({"case": c, "rc": r["rc"], "verdict": r["verdict"], "events": r["events"], "proj": p,
@@ -283,4 +314,68 @@ def oracle_no_free_before_ready2(r):
             sn = _snap(e.snap)
             if sn and sn[2] != "1":
                 bad.append("finisher releases the record of a thread that is not detached: " + e.raw)
+    return bad
+
+
+# ------------------------------------------------------------------------------------------------
+# order of the shared accesses inside one step (between two POINTs), read off the preprocessed source
+# of the current tree: the controller cannot schedule inside a step, so "unlock, then publish" and
+# "publish, then unlock" give the same traces; the model's step table is checked against the text.
+# ------------------------------------------------------------------------------------------------
+
+def _func_body(txt, name):
+    m = re.search(r"\b%s\s*\([^;{]*\)\s*\{" % re.escape(name), txt)
+    if not m:
+        return None
+    i, depth = m.end(), 1
+    while i < len(txt) and depth:
+        depth += {"{": 1, "}": -1}.get(txt[i], 0)
+        i += 1
+    return txt[m.end():i]
+
+
+STEP_TABLE = [
+    # (function, [regexes that must occur in this order])
+    ("myth_entry_point_1", [r'"finish\.cb\.detached"', r"this_thread->detached", r"myth_spin_unlock_body\s*\(\s*&this_thread->lock",
+                            r'"finish\.cb\.freedesc"', r"free_myth_thread_struct_desc", r'"finish\.cb\.ready2"',
+                            r"this_thread->status\s*=\s*MYTH_STATUS_FREE_READY2", r"myth_spin_unlock_body\s*\(\s*&this_thread->lock"]),
+    ("myth_entry_point_2", [r'"finish\.cb\.detached"', r"this_thread->detached", r"myth_spin_unlock_body\s*\(\s*&this_thread->lock",
+                            r'"finish\.cb\.freedesc"', r"free_myth_thread_struct_desc", r'"finish\.cb\.ready2"',
+                            r"this_thread->status\s*=\s*MYTH_STATUS_FREE_READY2", r"myth_spin_unlock_body\s*\(\s*&this_thread->lock"]),
+    ("myth_join_2", [r'"join\.cb\.set"', r"myth_desc_join_set", r"myth_spin_unlock_body\s*\(\s*&th->lock"]),
+    ("myth_join_3", [r'"join\.cb\.set"', r"myth_desc_join_set", r"myth_spin_unlock_body\s*\(\s*&th->lock"]),
+    ("myth_join_body", [r"myth_spin_lock_body\s*\(\s*&th->lock", r'"join\.check"', r"myth_desc_is_finished\s*\(\s*th\s*\)",
+                        r"myth_spin_unlock_body\s*\(\s*&th->lock", r"while\s*\(\s*th->status\s*!=\s*MYTH_STATUS_FREE_READY2", r"myth_join_1\s*\(",
+                        r"myth_desc_set_not_runnable\s*\(\s*this_thread", r"myth_join_2\b"]),
+    ("myth_entry_point_cleanup", [r"myth_spin_lock_body\s*\(\s*&this_thread->lock", r'"finish\.readjoin"', r"->join_thread",
+                                  r"wait_thread->status\s*=\s*MYTH_STATUS_READY", r"myth_entry_point_1\b"]),
+    ("myth_tryjoin_body", [r"myth_spin_lock_body\s*\(\s*&th->lock", r'"tryjoin\.check"', r"myth_desc_is_finished\s*\(\s*th\s*\)",
+                           r"myth_spin_unlock_body\s*\(\s*&th->lock", r"while\s*\(\s*th->status\s*!=\s*MYTH_STATUS_FREE_READY2", r"myth_join_1\s*\("]),
+    ("myth_detach_body", [r'"detach\.fast"', r"th->status\s*==\s*MYTH_STATUS_FREE_READY2", r'"detach\.reap"', r"free_myth_thread_struct_desc",
+                          r"myth_spin_lock_body\s*\(\s*&th->lock", r'"detach\.check"', r"myth_desc_is_finished\s*\(\s*th\s*\)",
+                          r"myth_spin_unlock_body\s*\(\s*&th->lock", r"while\s*\(\s*th->status\s*!=\s*MYTH_STATUS_FREE_READY2", r'"detach\.reap"',
+                          r"free_myth_thread_struct_desc", r'"detach\.set"', r"myth_desc_set_detached", r"myth_spin_unlock_body\s*\(\s*&th->lock"]),
+    ("myth_desc_is_finished", [r"thread->status\s*>=\s*MYTH_STATUS_FREE_READY\b"]),
+]
+
+
+def source_order_check():
+    """returns a list of messages: steps whose shared accesses are not in the order the model's step table has"""
+    src = os.path.join(vlib.REPO, "src", "myth_sched.c")
+    rc, out = vlib.sh(["gcc", "-E", "-P"] + vlib.lib_cflags() + [src], timeout=120)
+    if rc != 0:
+        return ["cannot preprocess src/myth_sched.c: " + out[-300:]]
+    bad = []
+    for fn, seq in STEP_TABLE:
+        body = _func_body(out, fn)
+        if body is None:
+            bad.append("function %s not found in the preprocessed source" % fn)
+            continue
+        pos = 0
+        for rx in seq:
+            m = re.compile(rx).search(body, pos)
+            if not m:
+                bad.append("%s: expected `%s` after the preceding accesses of the step table (order of shared accesses changed)" % (fn, rx))
+                break
+            pos = m.end()
     return bad
